@@ -1272,11 +1272,11 @@ Proof.
   intros (A & B & _ & C) [(H1 & H2 & H3) H4]. unfold wf, rt_sorted. rewrite A, B, C. auto.
 Qed.
 
-Theorem run_op_wf (st : rt S * provmap) (o : op) : wf_all st -> wf_all (fst (run_op S commit st o)).
+Theorem run_op_wf (fsa : N -> S) (st : rt S * provmap) (o : op) : wf_all st -> wf_all (fst (run_op S commit fsa st o)).
 Proof.
   destruct st as [r p]. intros Hw. assert (Hw' := Hw). unfold wf_all, wf, rt_sorted in Hw'; cbn [fst snd] in Hw'.
   destruct Hw' as [[(A & B & C) D] F].
-  destruct o as [k id|k id t| |g rid|k b|]; cbn [run_op].
+  destruct o as [k id|k id t| |g rid|k b| |k id]; cbn [run_op].
   - pose proof (ingest_wf r p k id Hw) as H. destruct (ingest S r k id) as [r1 d]. exact H.
   - assert (Hsub : wf_all (fst (submit S r k id), p)).
     { unfold submit. destruct (find hkey_cmp k (heads r)); [|exact Hw].
@@ -1321,6 +1321,10 @@ Proof.
     split; [|exact F]. split; [|exact D]. cbn. split; [apply set_sorted; auto; ord|auto].
   - cbn [fst snd]. split; [|exact F]. split; [exact (conj A (conj B C))|].
     cbn. exact (sorted_map_keys (fun _ => []) (fronts r) B).
+  - destruct (find N.compare (wl_of k) (fronts r)); [|exact Hw]. cbn [fst snd].
+    split; [|exact F]. split.
+    + cbn. split; [exact A|]. split; [apply set_sorted; auto; ord|exact C].
+    + cbn. apply set_sorted; try ord. exact (sorted_map_keys (fun _ => []) (fronts r) B).
 Qed.
 
 End PassLemmas.
@@ -1388,10 +1392,10 @@ Proof.
   - exact I.
 Qed.
 
-Lemma api_preserves_wf S (commit : S -> list N -> cres S) : forall ops st,
-  wf_all st -> Forall (fun os => wf_all (snd os)) (run_ops S commit st ops).
+Lemma api_preserves_wf S (commit : S -> list N -> cres S) (fsa : N -> S) : forall ops st,
+  wf_all st -> Forall (fun os => wf_all (snd os)) (run_ops S commit fsa st ops).
 Proof.
   induction ops as [|o ops IH]; intros st Hw; cbn [run_ops]; [constructor|].
-  pose proof (run_op_wf S commit st o Hw) as H1.
-  destruct (run_op S commit st o) as [st' out]. cbn [fst] in H1. constructor; [exact H1|apply IH; exact H1].
+  pose proof (run_op_wf S commit fsa st o Hw) as H1.
+  destruct (run_op S commit fsa st o) as [st' out]. cbn [fst] in H1. constructor; [exact H1|apply IH; exact H1].
 Qed.
